@@ -46,6 +46,11 @@ pub struct Shared {
     pub diverged: Mutex<Vec<String>>,
 }
 
+/// When set, EVERY scheduling point of the runtime (each lock, condvar, atomic, spawn, join) at which
+/// the running task may continue is a branch point, not only the designated ones. Used for the small
+/// queue-level harnesses, where check-then-act windows between two lock acquisitions matter.
+pub static ALL_POINTS: AtomicBool = AtomicBool::new(false);
+
 thread_local! {
     static CUR: RefCell<(Vec<u8>, Vec<Branch>, usize)> = RefCell::new((Vec::new(), Vec::new(), 0));
 }
@@ -160,6 +165,11 @@ impl Scheduler for PbDfs {
             let c = cur.unwrap();
             let others: Vec<usize> = ids.iter().copied().filter(|&x| x != c).collect();
             if others.is_empty() { (0, vec![c]) } else { (2, others) }
+        } else if ALL_POINTS.load(Ordering::Relaxed) {
+            let c = cur.unwrap();
+            let mut v = vec![c];
+            v.extend(ids.iter().copied().filter(|&x| x != c));
+            (1, v)
         } else {
             (0, vec![cur.unwrap()])
         };
